@@ -218,6 +218,31 @@ func e2ePatch(c *e2eCtx) error {
 				return
 			}
 		}
+		// configuration change between the commands (one project in four with several main packages):
+		// `mainEntries` is narrowed to one main package after track, then a patch round with an insert
+		// marker — the other main packages must lose their service-start call, the tables stay whole
+		if i%4 == 1 {
+			var mains []*proj.Pkg
+			for _, pk := range s.p.Pkgs {
+				if pk.IsMain {
+					mains = append(mains, pk)
+				}
+			}
+			if len(mains) >= 2 {
+				keep := mains[r.Intn(len(mains))]
+				s.cfg.MainEntries = []string{keep.Dir}
+				proj.WriteConfig(s.dir, s.cfg)
+				s.desc = cfgDesc(s.cfg)
+				c.count("directed:mainEntries-narrowed-before-patch")
+				all := map[string]bool{}
+				for _, pk := range mains {
+					for d := range s.closureDirs(pk) {
+						all[d] = true
+					}
+				}
+				c.patchRound(s, r, rounds+3, &patchDirective{dirs: all, inserts: 1 + r.Intn(2)}) // the other mains still carry their block from track
+			}
+		}
 		// directed pair (one in two projects): a component loses its last tracking point through
 		// delete markers, then receives its first one again through an insert marker
 		if r.Intn(2) == 0 {
@@ -253,31 +278,6 @@ func e2ePatch(c *e2eCtx) error {
 			if c.patchRound(s, r, rounds+4, &patchDirective{everything: true, deleteAll: true}) {
 				c.count("directed:all-points-deleted-then-inserts")
 				c.patchRound(s, r, rounds+5, &patchDirective{everything: true, inserts: 1 + r.Intn(3)})
-			}
-		}
-		// configuration change between the commands (one project in four with several main packages):
-		// `mainEntries` is narrowed to one main package after track, then a patch round with an insert
-		// marker — the other main packages must lose their service-start call, the tables stay whole
-		if i%4 == 1 {
-			var mains []*proj.Pkg
-			for _, pk := range s.p.Pkgs {
-				if pk.IsMain {
-					mains = append(mains, pk)
-				}
-			}
-			if len(mains) >= 2 {
-				keep := mains[r.Intn(len(mains))]
-				s.cfg.MainEntries = []string{keep.Dir}
-				proj.WriteConfig(s.dir, s.cfg)
-				s.desc = cfgDesc(s.cfg)
-				c.count("directed:mainEntries-narrowed-before-patch")
-				all := map[string]bool{}
-				for _, pk := range mains {
-					for d := range s.closureDirs(pk) {
-						all[d] = true
-					}
-				}
-				c.patchRound(s, r, rounds+3, &patchDirective{dirs: all, inserts: 1 + r.Intn(2)})
 			}
 		}
 	})
